@@ -80,6 +80,8 @@ def main(argv=None):
                 mod.run(ctx)
             except AnalysisError as e:
                 ctx.error("analysis", str(e))
+            if not os.environ.get("PDSA_NO_ANCHOR_TABLE"):
+                ctx.apply_anchor_table()
             out = {"findings": [f.as_dict() for f in ctx.findings], "errors": ctx.errors,
                    "obligations": len(ctx.obligations)}
         except AnalysisError as e:
